@@ -110,6 +110,14 @@ def card(a):
         # consequence of card-remove and card-nonneg (proved on every run): a finite set with an element has at least one
         GEN_LEMMAS.append('card-pos[%s]' % et.key)
         GEN_AXIOMS.append(('card-pos[%s]' % et.key, ForAll([A, x], Implies(And(fn(A), Select(A, x)), f(A) >= 1), patterns=[z3.MultiPattern(f(A), Select(A, x))])))
+        # set-at-a-time Finset facts (Set.ncard_diff, Set.ncard_union_le, Set.Finite.union), used by termination measures of work-list loops
+        un = _setop('union', et, lambda p, q: Or(p, q)); df = _setop('diff', et, lambda p, q: And(p, Not(q)))
+        GEN_AXIOMS.append(('card-diff-subset[%s]' % et.key, ForAll([A, B], Implies(And(fn(A), ForAll([x], Implies(Select(B, x), Select(A, x)))), f(df(A, B)) == f(A) - f(B)), patterns=[f(df(A, B))])))
+        GEN_AXIOMS.append(('card-union-le[%s]' % et.key, ForAll([A, B], Implies(And(fn(A), fn(B)), f(un(A, B)) <= f(A) + f(B)), patterns=[f(un(A, B))])))
+        GEN_AXIOMS.append(('fin-union[%s]' % et.key, ForAll([A, B], fn(un(A, B)) == And(fn(A), fn(B)))))
+        GEN_AXIOMS.append(('fin-subset-diff[%s]' % et.key, ForAll([A, B], Implies(fn(A), fn(df(A, B))))))
+        GEN_LEMMAS.append('diff-union-right[%s]' % et.key)
+        GEN_AXIOMS.append(('diff-union-right[%s]' % et.key, ForAll([A, B, Const('C', S)], df(A, un(B, Const('C', S))) == df(df(A, B), Const('C', S)))))
         return f
     return SV(INT, _fn('card', et, mk)(a.z))
 
